@@ -926,18 +926,33 @@ func (e *Engine) evalCall(st *State, env *cenv, x *CExpr) (Val, error) {
 			t = v.Base
 		}
 		return Val{K: KBool, T: "(< (root " + t + ") 0)"}, nil
+	case "visited": // visited(m, k): the range loop over map m has already produced key k
+		v, err := e.evalC(st, env, args[0])
+		if err != nil {
+			return Val{}, err
+		}
+		k, err := e.evalC(st, env, args[1])
+		if err != nil {
+			return Val{}, err
+		}
+		it := pickIter(st, v)
+		if it == nil || it.visited == "" {
+			return Val{}, fmt.Errorf("visited(): no (unique) range loop over a map of this type is active here")
+		}
+		if mt, ok := v.Ty.Underlying().(*types.Map); ok {
+			k = e.keyVal(st, k, mt)
+		}
+		return Val{K: KBool, T: "(select " + it.visited + " " + k.T + ")"}, nil
 	case "inrange": // inrange(m): an iteration of the range loop over map m has begun (a Next returned a key)
 		v, err := e.evalC(st, env, args[0])
 		if err != nil {
 			return Val{}, err
 		}
-		res := "false"
-		for _, it := range st.iters {
-			if it != nil && !it.isStr && it.m.T == v.T && it.started != "" {
-				res = it.started
-			}
+		it := pickIter(st, v)
+		if it == nil || it.started == "" {
+			return Val{}, fmt.Errorf("inrange(): no (unique) range loop over a map of this type is active here")
 		}
-		return Val{K: KBool, T: res}, nil
+		return Val{K: KBool, T: it.started}, nil
 	case "sameobj":
 		a, err := e.evalC(st, env, args[0])
 		if err != nil {
@@ -1346,7 +1361,7 @@ func (e *Engine) evalDesignator(st *State, env *cenv, x *CExpr) ([]desig, error)
 			tag := intLit(int64(e.typeTag(mt)))
 			pred := func(a string) string { return "(= (dyntype " + a + ") " + tag + ")" }
 			out = append(out, desig{heap: e.mapDomHeap(mt), pred: pred}, desig{heap: "ML", pred: pred})
-			if vh, _, sc := e.mapValHeap(mt); sc {
+			for _, vh := range e.mapValueHeaps(mt) {
 				out = append(out, desig{heap: vh, pred: pred})
 			}
 			return out, nil
@@ -1376,7 +1391,7 @@ func (e *Engine) evalDesignator(st *State, env *cenv, x *CExpr) ([]desig, error)
 				return nil, fmt.Errorf("mapof() needs a map")
 			}
 			out = append(out, desig{heap: e.mapDomHeap(mt), single: v.T}, desig{heap: "ML", single: v.T})
-			if vh, _, sc := e.mapValHeap(mt); sc {
+			for _, vh := range e.mapValueHeaps(mt) {
 				out = append(out, desig{heap: vh, single: v.T})
 			}
 			return out, nil
@@ -1662,4 +1677,29 @@ func (e *Engine) allowedWhole(ac *assignsCtx, heap string) string {
 		}
 	}
 	return "false"
+}
+
+
+// pickIter: the active map iterator for map value v: the one over the same term, else the only one over a map of the
+// same type (contract expressions re-load the map, so the terms need not be identical).
+func pickIter(st *State, v Val) *mapIter {
+	var same, byType []*mapIter
+	for _, it := range st.iters {
+		if it == nil || it.isStr || it.isSlice {
+			continue
+		}
+		if it.m.T == v.T {
+			same = append(same, it)
+		}
+		if it.m.Ty != nil && v.Ty != nil && types.Identical(it.m.Ty.Underlying(), v.Ty.Underlying()) {
+			byType = append(byType, it)
+		}
+	}
+	if len(same) == 1 {
+		return same[0]
+	}
+	if len(byType) == 1 {
+		return byType[0]
+	}
+	return nil
 }
